@@ -12,6 +12,7 @@ data) and `C` (a reference back to a container that is being printed: cyclic dat
   `unmodelled`, `enum` or `fuel` ends the answer). `<dev>`: `cur` (`Dev.current`), `-` (`Dev.none`)
   or a subset of the letters `c d n l f` (`cmpUneval divZeroInf condListNil litAlias cmpFloat`).
 * `simp <plan>` — `Fn.Simplify` of the compiled plan (tree level), `unmodelled` outside the model
+* `fns` — the modelled and the unmodelled function names (hex, comma separated, `;` between the lists)
 * `spec <fn hex> <dev> <args>` — the documented result of one function on literal arguments (`<args>`
   is an array tree): `ok <value>`, `err`, `unmodelled` -/
 namespace OjgVerif.Asm
@@ -213,6 +214,7 @@ def handle : List String → String
         else if !pathsRoundTrip 201 a then "paths-do-not-round-trip"
         else renderTree 400 (simplify 201 a)
     | _ => "bad-op"
+  | ["fns"] => String.intercalate "," (modelledFns.map toHexF) ++ ";" ++ String.intercalate "," (unmodelledFns.map toHexF)
   | ["spec", fnS, devS, argsS] =>
     match ofHex fnS, readDev devS, readTree argsS with
     | some f, some dev, some (.arr xs) => specText dev f xs
